@@ -54,7 +54,7 @@ def errName : Err → String
   | .indexError => "IndexError" | .valueError => "ValueError" | .keyError => "KeyError"
 
 def obsOf (s : St) (o : Out) (univ : List Obj) : Obs :=
-  { list := listView s, items := itemsView s, names := s.names, range := rangeView s,
+  { list := listView s, items := itemsView pyStr s, names := s.names, range := rangeView pyStr s,
     ret := o.ret, err := o.err.map errName, notifs := o.notifs,
     accepts := if s.checkOnSet then univ.map (accepts s) else [] }
 
@@ -85,7 +85,7 @@ def handle (req : Json) : Except String Json := do
   let s0 : St := { objs := objs, names := names, checkOnSet := c }
   let (_, revObs, branches) := ops.foldl (fun (acc : St × List Obs × List String) op =>
       let (s, l, b) := acc
-      let (s', o) := step s op
+      let (s', o) := step pyStr s op
       (s', obsOf s' o univ :: l,
         (opName op ++ (if o.err.isSome then ":err" else ":ok") ++ (if s.names.isEmpty then ":list" else ":dict")) :: b))
     (s0, [], [])
